@@ -12,6 +12,7 @@ The property module provides
 """
 
 import collections
+import os
 import hashlib
 import multiprocessing
 import time
@@ -113,6 +114,8 @@ def run_bfs(modname, configs, st, max_depth, max_states, deadline_s, chunk=24, n
                 pool.terminate()
                 break
             depth += 1
+            if os.environ.get("VERIF_DEBUG"):
+                print("bfs depth=%d frontier=%d next=%d t=%.1fs" % (depth, len(frontier), len(nxt), time.time() - t0), flush=True)
             for ci, _, _ in nxt:
                 per_cfg_depth[ci] = depth
             frontier = nxt
